@@ -490,7 +490,7 @@ def vm_crosscheck(prop, run_fn, require, pairs, per_file=400, jobs=8):
     files = []
     for k in range(0, len(pairs), per_file):
         part = pairs[k:k + per_file]
-        name = "cases_%s_%d" % (prop, k // per_file)
+        name = "cases_%s_p%d_%d" % (prop, os.getpid(), k // per_file)
         path = os.path.join(BUILD, name + ".v")
         with open(path, "w") as f:
             f.write("From Coq Require Import ZArith List.\nImport ListNotations.\nOpen Scope Z_scope.\n")
